@@ -34,10 +34,19 @@ Definition multiset_eqb {A} (eqb : A -> A -> bool) (a b : list A) : bool :=
 Fixpoint nodupZ (l : list Z) : bool :=
   match l with [] => true | x :: l' => negb (existsb (Z.eqb x) l') && nodupZ l' end.
 
+(* a conjunction with more than 255 include fields has no id (size is an 8-bit field): the document
+   is refused; the specification fixes the index contents only when that conjunction comes first
+   (nothing of the document indexed), other placements are outside its domain *)
+Definition oversize (d : doc) : bool := existsb (fun cj => 255 <? calc_size cj) (d_conjs d).
+Definition oversize_first (d : doc) : bool :=
+  match d_conjs d with cj :: _ => 255 <? calc_size cj | [] => false end.
+Definition e2e_docok (d : doc) : bool := pl_docok d && negb (oversize d).
+
 (* what AddDocument must return *)
 Definition expected_add (c : ecase) (d : doc) : list iadd :=
   if negb (doc_valid d) then [IAddErr]
   else if negb (valid_doc_id (d_id d)) then [IAddErr; IAddPanic]
+  else if oversize d then [IAddErr; IAddPanic]
   else
     let sems := map (conj_sem (fields_of c) (parsers_of (k_parsers c))) (d_conjs d) in
     if forallb (fun o => match o with Some _ => true | None => false end) sems then [IAddOk]
@@ -62,7 +71,7 @@ Definition query_verdict (c : ecase) (qr : assignment * ires) : bool * N :=
   | IErr => if q_supported c q then (false, 14%N) else (true, 0%N)
   | IRes docs hits =>
     if negb (q_supported c q) then (true, 0%N) else
-    match sat_hits (fields_of c) (parsers_of (k_parsers c)) (k_pol c) pl_docok (map fst (k_docs c)) q with
+    match sat_hits (fields_of c) (parsers_of (k_parsers c)) (k_pol c) e2e_docok (map fst (k_docs c)) q with
     | None => (true, 0%N)
     | Some hs =>
       if negb (nodupZ docs) then (false, 15%N)
@@ -75,7 +84,9 @@ Definition query_verdict (c : ecase) (qr : assignment * ires) : bool * N :=
 Fixpoint first_bad (l : list (bool * N)) : bool * N :=
   match l with [] => (true, 0%N) | (true, _) :: l' => first_bad l' | (false, s) :: _ => (false, s) end.
 
-Definition distinct_ids (c : ecase) : bool := nodupZ (map (fun da => d_id (fst da)) (k_docs c)).
+Definition distinct_ids (c : ecase) : bool :=
+  nodupZ (map (fun da => d_id (fst da)) (k_docs c)) &&
+  forallb (fun da => negb (oversize (fst da)) || oversize_first (fst da)) (k_docs c).
 
 Definition spec_verdict (c : ecase) : bool * bool * N :=
   let adds := map (fun da => (existsb (iadd_eqb (snd da)) (expected_add c (fst da)), 10%N)) (k_docs c) in
